@@ -33,10 +33,20 @@ var SafeFractions = []string{"0.5", "-1.5", "2.25", "1e2", "1E3"}
 // ContentFor builds a content object for a type holding every keep-list key
 // of every version (each with some probability) plus random extra keys.
 func ContentFor(r *Rand, evType string, nums []string) *ref.Value {
+	return contentFor(r, evType, nums, 0.8)
+}
+
+// FullContentFor is ContentFor with every content key that any redaction algorithm of any version keeps for the type
+// present (and the random other keys as well).
+func FullContentFor(r *Rand, evType string, nums []string) *ref.Value {
+	return contentFor(r, evType, nums, 1.1)
+}
+
+func contentFor(r *Rand, evType string, nums []string, pKeep float64) *ref.Value {
 	c := &ref.Value{K: ref.Obj}
 	opts := JSONOpts{Depth: 2, Width: 3, Numbers: nums, PlainKey: false}
 	for _, k := range keepKeysAllVersions[evType] {
-		if !r.Chance(0.8) {
+		if !r.Chance(pKeep) {
 			continue
 		}
 		var v *ref.Value
